@@ -6,6 +6,7 @@
 set -u
 P=$(readlink -f "$1"); D=$(readlink -f "$2"); PKG="$3"; WT="${4:-/tmp/seedconfirm.$$}"
 export GOFLAGS=-mod=mod GOPROXY=off
+RACEFLAG=${RACE:+-race}   # RACE=1: run the demonstration under the race detector
 OWN=0
 if [ ! -d "$WT" ]; then git -C /repo worktree add --detach -q "$WT" HEAD || exit 2; OWN=1; fi
 cleanup() { git -C "$WT" checkout -q -- . ; rm -f "$WT/$PKG/$(basename "$D")"; [ $OWN = 1 ] && git -C /repo worktree remove --force "$WT"; }
@@ -20,10 +21,10 @@ echo "build=ok"
 ( cd "$WT/mailbox" && go test -vet=off -count=1 -timeout 25m ./... >/dev/null 2>&1 ); m=$?
 echo "existing-tests-with-change: gbn=$g mailbox=$m"
 cp "$D" "$WT/$PKG/"
-( cd "$WT/$PKG" && go test -vet=off -count=1 -timeout 10m -run "^($T)\$" . >/tmp/seedconfirm_with.$$ 2>&1 ); w=$?
+( cd "$WT/$PKG" && go test $RACEFLAG -vet=off -count=1 -timeout 10m -run "^($T)\$" . >/tmp/seedconfirm_with.$$ 2>&1 ); w=$?
 tail -4 /tmp/seedconfirm_with.$$ | cut -c1-300
 git -C "$WT" apply -R "$P"
-( cd "$WT/$PKG" && go test -vet=off -count=1 -timeout 10m -run "^($T)\$" . >/tmp/seedconfirm_without.$$ 2>&1 ); wo=$?
+( cd "$WT/$PKG" && go test $RACEFLAG -vet=off -count=1 -timeout 10m -run "^($T)\$" . >/tmp/seedconfirm_without.$$ 2>&1 ); wo=$?
 tail -2 /tmp/seedconfirm_without.$$ | cut -c1-300
 rm -f /tmp/seedconfirm_with.$$ /tmp/seedconfirm_without.$$
 echo "demo-with-change=$w (want !=0) demo-without=$wo (want 0)"
